@@ -741,6 +741,19 @@ func (e *Exec) specCall(c *ast.CallExpr, env *SpecEnv) (Val, types.Type) {
 				return v, tInt
 			}
 			return iv("0"), tInt
+		case "spawned":
+			// spawned(name, k): call site k of name was executed as a go statement (the call event is recorded too)
+			name, k, _, ok := siteArgs(c.Args)
+			if !ok {
+				return e.specErr("spawned(name, k) expected")
+			}
+			if v, found := e.st.vars[fmt.Sprintf("spawned:%s#%d", name, k)]; found {
+				return v, tBool
+			}
+			if !e.hasSite(name, k) {
+				return e.specErr("no call site %s#%d in %s", name, k, e.fnName)
+			}
+			return bv(tFalse), tBool
 		case "recvd":
 			name := exprText(c.Args[0])
 			if v, ok := e.st.vars["recvd:"+name]; ok {
